@@ -12,7 +12,8 @@ for fn in sorted(os.listdir(ev)) if os.path.isdir(ev) else []:
         txt = open(os.path.join(ev, fn)).read()
         viol = re.findall(r"VIOLATION property=\S+ replay=\S*/(\S+)\.txt", txt)
         ex = re.search(r"exit=(\d+)", txt)
-        checks[m.group(1)] = {"exit": int(ex.group(1)) if ex else None, "violating_harnesses_or_laws": viol,
+        ro = re.search(r"restricted_to=(.*)", txt)
+        checks[m.group(1)] = {"exit": int(ex.group(1)) if ex else None, "violating_harnesses_or_laws": viol, "restricted_to": ro.group(1) if ro else None,
                               "summary": [l for l in txt.splitlines() if l.startswith("property=") or l.startswith("INCONCLUSIVE")][:6]}
 notes = open(os.path.join(d, "notes.md")).read()
 patch = open(os.path.join(d, "patch.diff")).read()
